@@ -498,7 +498,7 @@ def verdict(ex, expected, res):
 
 def known_signature(ex, inst, width, expected, res, kind):
     """-> id of the finding whose signature this failing run matches, or None. A signature suppresses a failure only when
-    KNOWN_FINDINGS.txt lists `known: property=C16 id=<that id>`; the last two are not in the design (found by this check)."""
+    KNOWN_FINDINGS.txt lists `known: property=C16 id=<that id>`; the *-small-width ones are not in the design (found by this check)."""
     parsed = parse_output(ex, res["out"])
     worse = kind == "wrong" and expected is not None and (parsed[0] is None or parsed[0] > expected)  # minimisation examples
     if ex == "max2sat" and kind == "wrong" and parsed[0] < expected:  # sub-optimal objective with Aborted: false
@@ -510,8 +510,8 @@ def known_signature(ex, inst, width, expected, res, kind):
         return "F8"  # infeasible instance: -isize::MIN when printing the bounds
     if ex == "tsptw" and worse and is_metric(inst["dist"]):
         return "F9"  # metric instance, status Proved, printed tour cost worse than the optimum (or no tour found)
-    if ex == "talentsched" and worse and (width is None or width <= 2):
-        return "talentsched-small-width"  # sub-optimal cost with Aborted: false at --width 1/2/default
+    if ex in ("sop", "talentsched") and worse and (width is None or width <= 2):
+        return ex + "-small-width"  # sub-optimal cost with Aborted: false at --width 1/2/default
     return None
 
 
@@ -576,8 +576,8 @@ def check_instance(ctx, inst):
 
 def examine_instance(ctx, inst):
     """runs every width x threads combination on one instance -> the first unsuppressed failure as a violation record, or None.
-    After the first failure of the Hypothesis test (shrinking), statistics are frozen, only the failing combination is
-    run and only the same kind of failure counts, results are cached, and a time budget bounds the shrink phase."""
+    After the first failure of the Hypothesis test (shrinking), statistics are frozen, only the failing combination is run
+    and only the same kind of failure (and same signature) counts, results are cached, and a time budget bounds the shrink phase."""
     ex, spec = ctx.ex, SPECS[ctx.ex]
     text = spec.render(inst)
     h = sha(ex + "\n" + (text if text is not None else json.dumps(inst)))
@@ -623,12 +623,12 @@ def examine_instance(ctx, inst):
                     ctx.known_hits[fid] += 1
                     ctx.known_examples.setdefault(fid, dict(case, reason="%s: %s" % (cli, msg)))
                 continue
-            if shrinking and kind != ctx.target[2]:
+            if shrinking and (kind, fid) != ctx.target[2:]:
                 continue
             reason = "%s: %s%s" % (cli, msg, " [matches the signature of %s, which is not listed as known]" % fid if fid else "")
             violation = {"property": "C16", "part": ex, "reason": reason, "case": case}
             if not ctx.failed:
-                ctx.failed, ctx.target, ctx.shrink_deadline = True, (width, threads, kind), time.time() + SHRINK_BUDGET_S[ctx.tier]
+                ctx.failed, ctx.target, ctx.shrink_deadline = True, (width, threads, kind, fid), time.time() + SHRINK_BUDGET_S[ctx.tier]
             ctx.cache[h] = violation
             return violation
         if shrinking:
@@ -764,7 +764,7 @@ def main(args=None):
 
 def run_check(tier, only, jobs, known, t0):
     violations, errors, inconclusive = [], [], []  # violations: (violation dict, replay path or None)
-    known_hits, known_examples = collections.Counter(), {}
+    known_hits, known_examples, regress_known = collections.Counter(), {}, 0
     for path in sorted(glob.glob(VERIF + "/regress/C16-*.json")):
         body = json.load(open(path))
         if body.get("case", {}).get("example", body.get("part")) not in only:
@@ -774,6 +774,7 @@ def run_check(tier, only, jobs, known, t0):
             violations.append(({"property": "C16", "part": "regress", "reason": "%s: %s" % (os.path.basename(path), detail), "case": body.get("case")}, path))
         elif verdict_ == "known":
             known_hits[detail] += 1
+            regress_known += 1
         elif verdict_ == "inconclusive":
             inconclusive.append("%s: %s" % (path, detail))
         elif verdict_ == "error":
@@ -787,7 +788,7 @@ def run_check(tier, only, jobs, known, t0):
                 results.append(p.get())
             except Exception as exc:
                 errors.append("worker for %s failed: %r" % (e, exc))
-    evaluations = excluded = 0
+    evaluations, excluded = 0, regress_known
     nontrivial, labels, samples = set(), collections.Counter(), []
     for r in sorted(results, key=lambda r: EXAMPLES.index(r["ex"])):
         evaluations, excluded = evaluations + r["evaluations"], excluded + r["excluded"]
